@@ -1126,6 +1126,36 @@ pub fn run_c15(tier: &str, seed: u64) -> Report {
         }
     }
     r.require("expected claim absent although its key has a validator: refused as missing", 60);
+    // ---- check_claim(K = v) FIRST, then an accepting validator for the same K through the BULK registration
+    // (GenericParser::extend_validation_claims, which brings no placeholder claim): the expectation stays in force - a token
+    // whose K is absent, differs (value, case, type) or matches is judged by the expectation as if the validator were not there
+    for &p in &ALL {
+        let key = pools.key(p, 0);
+        let variants: Vec<(Vec<ClaimOp>, &str)> = vec![
+            (vec![ClaimOp::Set(Claim::Custom("n".into(), json!(1)))], "absent"),
+            (vec![ClaimOp::Set(Claim::Custom("n".into(), json!(1))), ClaimOp::Set(Claim::Custom("role".into(), json!("user")))], "other value"),
+            (vec![ClaimOp::Set(Claim::Custom("n".into(), json!(1))), ClaimOp::Set(Claim::Custom("role".into(), json!("Admin")))], "other case"),
+            (vec![ClaimOp::Set(Claim::Custom("n".into(), json!(1))), ClaimOp::Set(Claim::Custom("role".into(), json!(["admin"])))], "other type"),
+            (vec![ClaimOp::Set(Claim::Custom("n".into(), json!(1))), ClaimOp::Set(Claim::Custom("role".into(), json!("admin")))], "equal"),
+            (vec![ClaimOp::Set(Claim::Aud("partners".into()))], "registered claim, other value"),
+            (vec![ClaimOp::Set(Claim::Aud("customers".into()))], "registered claim, equal"),
+        ];
+        for (s, what) in variants {
+            let on_aud = what.starts_with("registered");
+            let e = if on_aud { vec![Claim::Aud("customers".into())] } else { vec![Claim::Custom("role".into(), json!("admin"))] };
+            let vclaim = if on_aud { Claim::Aud("dummy".into()) } else { Claim::Custom("role".into(), json!("dummy")) };
+            // (a validator that accepts everything: one that rejects would legitimately decide the error variant)
+            for behave in [VBehave::Accept] {
+                let c = C15Case { p, key: key.clone(), s: s.clone(), e: e.clone(), layer: Layer::Generic, default_parser: false, class: format!("check_claim-then-bulk-validator-on-the-same-key ({})", what), raw_payload: None, validators: vec![VSpec { claim: vclaim.clone(), behave, reg: VReg::ExtendOnly, second: false, odd: 0 }], validators_first: false };
+                let before = r.violations_total;
+                c15_eval(&c, &mut r);
+                if r.violations_total == before {
+                    r.count("expectation followed by a bulk-registered validator on the same key: expectation still decides");
+                }
+            }
+        }
+    }
+    r.require("expectation followed by a bulk-registered validator on the same key: expectation still decides", 50);
     total.merge(r);
     for &p in &ALL {
         for t in ["generic", "batteries", "batteries-default"] {
@@ -1148,7 +1178,7 @@ pub fn replay_c15(case: &Value) -> Report {
     r
 }
 
-pub const RULE_C15: &str = "for seeded random token claim sets S (registered string claims, integers, booleans, nested JSON, strings) the expected sets E = {equal, random subset, superset with one absent claim, one value changed (case / trailing space / NUL suffix / one byte longer / extended or shortened by exactly 256, 512, 65536 bytes / type / off-by-one / a float changed only beyond single precision / fraction / negation / extra element; time claims: another instant and the same instant or second spelled differently), one key changed by one character, expected value on a claim that is present as null, integer-vs-float spelling (don't-care)} are registered with check_claim (and, on GenericParser, also through one extend_check_claims call) on GenericParser, PasetoParser::new() and PasetoParser::default() and the authentic token is parsed; oracle = harness-side comparison of S and E: accept iff no discrepancy; a missing-only discrepancy must be reported as Missing(k) for a missing k; an error must name a failing claim. Plus 500 (thorough 5000) histories: one parser processes 8 tokens in 4 orders and every outcome must equal the fresh-parser outcome. Plus sessions in which the expectation for a key is REPLACED on a live parser between parses (check_claim again with another value), and 160 (thorough 2000) NESTED pairs of such sessions (a second parser with other expectations is created, used and dropped in the middle of the first one's life on the same thread). Plus PasetoParser::default().check_claim(exp|nbf) as its own class. Plus payloads as another implementation writes them (2.5e3 / 1.50 / 1E2 / \\u0061 spellings must match the JSON-equal expectation; objects that merely look like serde_json's private number / raw-value encodings are objects and do not match a number or string). Plus an expectation on a key that also has a tolerant validator (a harness one, or the default parser's own exp/nbf validators) against a token that lacks the claim: still refused as missing. Plus authentic tokens whose payload is valid JSON but not an object (sealed at the core layer: [], \"aud\", 137, true, null, ...): every expectation must fail. Token claim keys include path/pointer look-alikes ('a/b' next to a nested a.b, 'https://example.com/role', '~0', 'a[0]'). distinct_nontrivial = distinct (protocol, parser kind, outcome, expectation class, error variant); plus several expectations registered AT ONCE (one extend_check_claims call with more entries than the parser holds) replacing earlier ones, and member names only another implementation can emit (empty, NUL, quote, BOM, 300 characters)";
+pub const RULE_C15: &str = "for seeded random token claim sets S (registered string claims, integers, booleans, nested JSON, strings) the expected sets E = {equal, random subset, superset with one absent claim, one value changed (case / trailing space / NUL suffix / one byte longer / extended or shortened by exactly 256, 512, 65536 bytes / type / off-by-one / a float changed only beyond single precision / fraction / negation / extra element; time claims: another instant and the same instant or second spelled differently), one key changed by one character, expected value on a claim that is present as null, integer-vs-float spelling (don't-care)} are registered with check_claim (and, on GenericParser, also through one extend_check_claims call) on GenericParser, PasetoParser::new() and PasetoParser::default() and the authentic token is parsed; oracle = harness-side comparison of S and E: accept iff no discrepancy; a missing-only discrepancy must be reported as Missing(k) for a missing k; an error must name a failing claim. Plus 500 (thorough 5000) histories: one parser processes 8 tokens in 4 orders and every outcome must equal the fresh-parser outcome. Plus sessions in which the expectation for a key is REPLACED on a live parser between parses (check_claim again with another value), and 160 (thorough 2000) NESTED pairs of such sessions (a second parser with other expectations is created, used and dropped in the middle of the first one's life on the same thread). Plus PasetoParser::default().check_claim(exp|nbf) as its own class. Plus payloads as another implementation writes them (2.5e3 / 1.50 / 1E2 / \\u0061 spellings must match the JSON-equal expectation; objects that merely look like serde_json's private number / raw-value encodings are objects and do not match a number or string). Plus an expectation on a key that also has a tolerant validator (a harness one, or the default parser's own exp/nbf validators) against a token that lacks the claim: still refused as missing; and check_claim(K = v) followed by an accepting validator for K registered through GenericParser::extend_validation_claims against tokens whose K is absent / differs in value, case or type / matches: the expectation still decides. Plus authentic tokens whose payload is valid JSON but not an object (sealed at the core layer: [], \"aud\", 137, true, null, ...): every expectation must fail. Token claim keys include path/pointer look-alikes ('a/b' next to a nested a.b, 'https://example.com/role', '~0', 'a[0]'). distinct_nontrivial = distinct (protocol, parser kind, outcome, expectation class, error variant); plus several expectations registered AT ONCE (one extend_check_claims call with more entries than the parser holds) replacing earlier ones, and member names only another implementation can emit (empty, NUL, quote, BOM, 300 characters)";
 
 // ==========================================================================================
 // C16
